@@ -143,7 +143,7 @@ Acts ==
   \cup {A("as_solutions_mut", i, s) : i \in Idx, s \in Sols}
   \cup {A("as_solutions", 0, 0), A("round_trip", 0, 0)}
   \cup {A("evaluate_with", i, 0) : i \in Idx} \cup {A("set_objective", i, 0) : i \in Idx}
-  \cup {A("evaluate", 0, par) : par \in {0, 1}} \cup {A("evaluate_missing", 0, pl) : pl \in 0..4}
+  \cup {A("evaluate", 0, par) : par \in 0..3} \cup {A("evaluate_missing", 0, pl) : pl \in 0..4}   \* evaluate: 0 = sequential, k = parallel evaluator on k worker threads
   \cup {A("evaluate_nested", 0, dp) : dp \in 1..3}
   \cup (IF AllEvaluated THEN {A("update_best", 0, 0)} ELSE {})
   \cup {A("init_run", 0, 0)}
